@@ -105,24 +105,24 @@ type Oracle interface {
 
 // Sim is one running simulation.
 type Sim struct {
-	Prop    string
-	K       ChainKnobs
-	W       *World
-	St      *core.Stats
-	Ctx     context.Context
-	Reps    []*Replica
-	GenDoc  *cmttypes.GenesisDoc
-	Keys    map[string]*NodeKeys
-	Blocks  map[int64]*cmttypes.Block
-	Commits map[int64]*cmttypes.Commit
-	Height  int64 // last committed height
-	Now     time.Time
-	Pool    []*PendingTx
-	History []*BuiltTx // every transaction ever built (for replays)
+	Prop         string
+	K            ChainKnobs
+	W            *World
+	St           *core.Stats
+	Ctx          context.Context
+	Reps         []*Replica
+	GenDoc       *cmttypes.GenesisDoc
+	Keys         map[string]*NodeKeys
+	Blocks       map[int64]*cmttypes.Block
+	Commits      map[int64]*cmttypes.Commit
+	Height       int64 // last committed height
+	Now          time.Time
+	Pool         []*PendingTx
+	History      []*BuiltTx // every transaction ever built (for replays)
 	pendingNonce map[signature.PublicKey]uint64
-	Oracles []Oracle
-	base    string
-	txSeq   int
+	Oracles      []Oracle
+	base         string
+	txSeq        int
 	// Aborted is set when the run cannot continue for a reason that is not a violation of the
 	// property being checked (e.g. a panic while checking another property).
 	Aborted string
@@ -175,6 +175,8 @@ func (v *simView) Account(addr staking.Address) *staking.Account {
 	}
 	return a
 }
+
+func (v *simView) Tree() mkvs.ImmutableKeyValueTree { return v.tree }
 
 func (v *simView) Epoch() beacon.EpochTime {
 	e, _, err := beaconState.NewImmutableState(v.tree).GetEpoch(v.s.Ctx)
